@@ -37,6 +37,8 @@ func init() {
 			{ID: "C07.S14", Alias: "C03.R9"},
 			{ID: "C07.S15", Alias: "C03.R4"},
 			{ID: "C07.S16", Alias: "C03.R5"},
+			{ID: "C07.S17", Doc: "every emitted frame is well-formed: control byte, three varints, payload of the announced length", Alias: "C08.R2"},
+			{ID: "C07.S18", Alias: "C02.R6"},
 		},
 	})
 }
